@@ -282,7 +282,9 @@ func checkStore(base, name string, rep *Report) *StoreReport {
 			return
 		}
 		liveBlobs[act] = true
-		if h.IsDeleted || !h.Inactive().IsNil() || h.WorkInProgressTimestamp > 1 {
+		// After a finished commit the inactive slot keeps the superseded (deleted) blob id with WIP timestamp 1
+		// (finalised marker): that is the clean state. A deleted mark or a real WIP timestamp is leftover work.
+		if h.IsDeleted || h.WorkInProgressTimestamp > 1 {
 			sr.DirtyHandles = append(sr.DirtyHandles, fmt.Sprintf("%s deleted=%v inactive=%v wip=%d", lid, h.IsDeleted, !h.Inactive().IsNil(), h.WorkInProgressTimestamp))
 		}
 		nb, err := os.ReadFile(BlobPath(base, si.BlobTable, act))
